@@ -1,6 +1,7 @@
 (* C16 driver.  One case per line:
      L <text>     classification, stringToRational, mkConst in QF_LRA / QF_LIA / QF_LIRA   (<empty> = "")
      T <text>     tokens of the text under the lexer's INITIAL-state rules
+     Q <a> <b>    mkEq of the Int constants spelled a and b, in QF_LIA and in QF_UFLIA
      P <p>/<q>    printed forms of the value p/q and what the SMT-LIB reader reads back *)
 open Num_model
 let explode s = List.init (String.length s) (String.get s)
@@ -37,7 +38,7 @@ let () =
         Printf.sprintf "I%s R%s S:%s | %s | %s | %s" (b (is_int_string s)) (b (is_real_string s)) st
           (mk (mk_const LRA s)) (mk (mk_const LIA s)) (mk (mk_const LIRA s))
       | "T" -> (match lex lex_rules (explode arg) with
-          | LexOk ts -> String.concat " " (List.filter_map (fun (t, lx) -> if t = SKIP then None else Some (tokname t ^ ":" ^ implode lx)) ts)
+          | LexOk ts -> String.concat " " (List.filter_map (fun (t, lx) -> if t = SKIP then None else Some (tokname t ^ ":" ^ (if tokname t = "KWD" then "" else implode lx))) ts)
           | LexStuck (_, _) -> "stuck")
       | "P" -> let i = String.index arg '/' in
         let q = qred { qnum = z_of_string (String.sub arg 0 i); qden = pos_of_string (String.sub arg (i + 1) (String.length arg - i - 1)) } in
@@ -46,6 +47,10 @@ let () =
         let fp = fr_print q in
         let back2 = match read_num_term fp with Some r -> qstr (qred r) | None -> "unreadable" in
         Printf.sprintf "%s ; %s ; %s ; %s ; %s" (implode (get_str q)) (implode t) back (implode fp) back2
+      | "Q" -> (match String.split_on_char ' ' arg with
+          | [a; b] -> let f uf = match mk_eq_int_consts uf (explode a) (explode b) with Some true -> "true" | Some false -> "false" | None -> "undef" in
+            f false ^ " " ^ f true
+          | _ -> "bad")
       | _ -> "bad" in
     print_endline out
   done with End_of_file -> ()
